@@ -462,6 +462,9 @@ fn deco(e: &mut XEl, p: &Pick, c: &Ctx, id: Option<usize>) {
             e.add_class(STYLE_CLASSES[ci]);
         }
     }
+    if c.opts.classes && c.opts.exprs && p.r[1] % 23 == 0 {
+        e.add_class("$cvb $cva");
+    }
     if c.opts.texts && p.f % 3 == 0 && !p.s.is_empty() {
         e.set("text", p.s.clone());
         if p.f % 2 == 0 {
@@ -684,6 +687,16 @@ fn build(picks: &[Pick], c: &mut Ctx, depth: usize) -> Vec<XEl> {
                 if c.opts.exprs && p.f % 5 == 0 {
                     g.set("gsize", num(p.n[2]));
                 }
+                if c.opts.classes {
+                    // class lists on containers, also through variables whose expansions overlap
+                    match p.r[1] % 5 {
+                        0 if c.opts.exprs => g.set("class", "$cva $cvb"),
+                        1 if c.opts.exprs => g.set("class", "thing $cva thing"),
+                        2 => g.set("class", "d-softshadow my-class"),
+                        3 => g.set("class", "thing other thing"),
+                        _ => {}
+                    }
+                }
                 let kids = build(&picks[i..i + k], c, depth + 1);
                 i += k;
                 g.kids = kids.into_iter().map(X::El).collect();
@@ -847,7 +860,10 @@ fn strip_ids(e: &mut XEl) {
 
 pub fn build_doc(picks: &[Pick], opts: &DocOpts) -> String {
     let mut c = Ctx { n_ids: 0, vars: vec![], opts: opts.clone(), templates: vec![] };
-    let els = build(picks, &mut c, 0);
+    let mut els = build(picks, &mut c, 0);
+    if opts.classes && opts.exprs {
+        els.insert(0, XEl::new("var").a("cva", "d-thick d-blue").a("cvb", "d-blue my-class d-thick"));
+    }
     if opts.root {
         svg_root(els).to_xml()
     } else {
